@@ -32,7 +32,7 @@ def obs_infer(fx, np, props, vals, sa, given, nw, nf, ni, cap, carrier='scalar',
             kw['raw'] = True
             base['route'] = 'ctor/raw'
         if sa != 'none':
-            kw['signed'] = (sa == 'T')
+            kw['signed'] = (sa == 'T') if (len(vals) + (nw if nw != NONE else 0) + (nf if nf != NONE else 0)) % 2 else int(sa == 'T')     # True/False or 1/0
         if nw != NONE: kw['n_word'] = nw
         if nf != NONE: kw['n_frac'] = nf
         if ni != NONE: kw['n_int'] = ni
